@@ -82,7 +82,7 @@ func (fv *FV) stepRead(st *State, cur Term, s PathStep, quiet bool) Term {
 			fv.assert(st, "index", tAnd(T(sx("<=", "0", s.Key.S), SBool), T(sx("<", s.Key.S, slLen(cur).S), SBool)), s.Pos, "index in range")
 		}
 		r := slAt(cur, s.Key)
-		for _, f := range wfFacts(r, 2) {
+		for _, f := range fv.wfAll(r, 2) {
 			st.assume(T(f, SBool))
 		}
 		return r
@@ -91,7 +91,7 @@ func (fv *FV) stepRead(st *State, cur Term, s PathStep, quiet bool) Term {
 			fv.abort(s.Pos, "map index of sort %s", cur.Sort.Name)
 		}
 		r := fv.ss.mpGet(cur, s.Key)
-		for _, f := range wfFacts(r, 2) {
+		for _, f := range fv.wfAll(r, 2) {
 			st.assume(T(f, SBool))
 		}
 		return r
@@ -110,6 +110,11 @@ func (fv *FV) writePath(st *State, p *Path, v Term, pos token.Pos) {
 			return
 		}
 		root = fv.readVar(st, p.Root)
+	}
+	if p.Ghost == "" && !fv.quietUpdate {
+		if at, ok := st.escaped[p.Root]; ok {
+			fv.assert(st, "alias-mutation", tBool(false), pos, "the object held by "+p.Root.Name()+" was stored elsewhere at "+fv.posStr(at)+" and is mutated through the variable afterwards (the other holder sees the change; value semantics would be unsound)")
+		}
 	}
 	nv := fv.update(st, root, p.Steps, v, pos)
 	nv = fv.bind(st, nv, "u")
